@@ -28,7 +28,8 @@ REQUIRED_THEOREMS = ['CfVerif.C04.' + t for t in (
     'stale_same_id_counterexample', 'gen_retry_guard', 'retransmit_only_outstanding', 'gen_handler_unregisters',
     'handler_done_on_every_reply', 'answered_requests_have_no_handler', 'no_handler_no_delivery',
     'gen_callback_before_unregister', 'nested_delivery_is_flat', 'nested_fifo_and_attribution',
-    'live_dispatch_reentrant_counterexample')]
+    'live_dispatch_reentrant_counterexample', 'gen_session_state', 'reconnect_forgets_previous_connections',
+    'next_connection_starts_idle', 'every_connection_fifo')]
 TRUSTED = ['harness/corr/c04.py extractor + correspondence + spec twin; harness/sim/crazyflie_device.py (session stepping, link) and harness/vsched',
            'environment model: the firmware parameter server of DESIGN Appendix D (Spec/C04 Dev = harness/sim CrazyflieDevice port 2, cross-checked on every transmitted request)',
            "CPython: struct pack/unpack as modelled in Base/Struct; int(str) on ASCII input; float(str) (passed to the model as an oracle, only reached for "
@@ -290,6 +291,30 @@ def extract(ctx):
     t = done[0].test
     g.strings('updatedCompleteTest', [ast.unparse(v) for v in t.values] if isinstance(t, ast.BoolOp) and isinstance(t.op, ast.And) else [ast.unparse(t)])
     g.strings('updatedCompleteBody', [ast.unparse(b) for b in done[0].body])
+    # -- what the objects keep between connections (the Param / _ParamUpdater objects outlive a connection, their Toc does not)
+    def _self_attrs(node, stores_only):
+        out = set()
+        for n in ast.walk(node):
+            if isinstance(n, ast.Attribute) and isinstance(n.value, ast.Name) and n.value.id == 'self':
+                if not stores_only or isinstance(n.ctx, (ast.Store, ast.Del)):
+                    out.add(n.attr)
+        return sorted(out)
+
+    def _self_calls(node):
+        return sorted(set(ast.unparse(n.func) for n in ast.walk(node) if isinstance(n, ast.Call) and ast.unparse(n.func).startswith('self.')))
+    g.strings('paramAttrs', _self_attrs(pa, True))
+    g.strings('updatedElement', _assigned(pu, 'element'))
+    g.strings('updatedReads', _self_attrs(pu, False))
+    g.strings('updatedStores', _self_attrs(pu, True))
+    cr, dc = X.find(pa, '_connection_requested'), X.find(pa, '_disconnected')
+    g.strings('connReqStores', ['%s = %s' % (ast.unparse(n.targets[0]), ast.unparse(n.value)) for n in ast.walk(cr) if isinstance(n, ast.Assign)])
+    g.strings('connReqCalls', _self_calls(cr))
+    g.strings('disconnStores', ['%s = %s' % (ast.unparse(n.targets[0]), ast.unparse(n.value)) for n in ast.walk(dc) if isinstance(n, ast.Assign)])
+    g.strings('disconnCalls', _self_calls(dc))
+    g.strings('updaterAttrs', _self_attrs(up, True))
+    uc = X.find(up, 'close')
+    g.strings('updaterCloseStores', _self_attrs(uc, True))
+    g.strings('updaterCloseCalls', _self_calls(uc))
     g.strings('updatedStore', _assigned(pu, 'self.values[element.group][element.name]'))
     g.strings('updatedValueStr', _assigned(pu, 'value_s'))
     # -- misc requests and reply handlers
@@ -568,6 +593,27 @@ class Real:
                                if not isinstance(getattr(c.callback, '__self__', None), pm._ExtendedTypeFetcher)]
         self.nsent = len(self.link.sent)
 
+    def reconnect(self, dev2):
+        """close_link, then open_link with the SAME Crazyflie object to ANOTHER device (e.g. another firmware build: other
+        indices / types / protocol version).  Returns the tokens of the close step (disconnect: the updater's close())."""
+        with contextlib.redirect_stdout(io.StringIO()):
+            self.s.close()
+        toks = self._flush()
+        self.s.cfg.device = dev2
+        self.s.device = dev2
+        self.dev = dev2
+        del self.s.events[:]
+        ok = self.s.connect('connected')
+        if not ok:
+            raise RuntimeError('simulated re-connection did not reach `connected`: %r' % (self.s.events,))
+        self.link = self.s.link
+        import cflib.crazyflie.param as pm
+        self.cf.incoming.cb = [c for c in self.cf.incoming.cb
+                               if not isinstance(getattr(c.callback, '__self__', None), pm._ExtendedTypeFetcher)]
+        self.nsent = len(self.link.sent)
+        del self.log[:]
+        return toks
+
     # -- canonical views
     def cn(self, name):
         return '.'.join(str(self.ids.setdefault(p, len(self.ids))) for p in name.split('.'))
@@ -687,8 +733,10 @@ class Real:
         return 'script %d %s' % (rid, ';'.join(out) or '-')
 
     def _misc_cb(self, rid, kind, pytype_name):
+        pt0 = self.pytype(pytype_name)          # the type the request was made for (the table may be another one when a stale handler fires)
+
         def cb(name, val):
-            pt = self.pytype(pytype_name)
+            pt = pt0 or self.pytype(pytype_name)
             if kind == 'd':
                 r = 'd:none' if val is None else 'd:' + self.val_tok(pt, val)
             elif kind == 's':
@@ -945,6 +993,26 @@ class Scenario:
         for g in r.param.toc.toc:
             for nm in r.param.toc.toc[g]:
                 self.emit('requpd %s %d' % (r.cn('%s.%s' % (g, nm)), 1 if r.proto4() else 0), None)
+
+    def reconnect(self, drained):
+        """close_link / open_link of the SAME Crazyflie object to another firmware build (other indices, types, parameters; one time
+        in five the other protocol generation).  drained=False: requests may be outstanding / queued when the link is closed."""
+        if drained:
+            drain(self)
+        r = self.real
+        v2 = self.dev.v2 if self.rng.random() < 0.8 else not self.dev.v2
+        self.dev = other_firmware(self.rng, self.S, self.dev.param_toc, v2=v2)
+        if not v2 and len(self.dev.param_toc) > 255:
+            raise RuntimeError('table too large')
+        _hook_device(self)
+        r.reconnect(self.dev)
+        self.names = ['%s.%s' % (p.group, p.name) for p in self.dev.param_toc]
+        self.emit('reconnect %d %s' % (1 if r.param._useV2 else 0, r.toc_line()), ['ok', '-'])
+        self.emit('devreset %d %s' % (1 if self.dev.v2 else 0, self.dev_line()), ['ok', '-'])
+        for g in r.param.toc.toc:
+            for nm in r.param.toc.toc[g]:
+                self.emit('requpd %s %d' % (r.cn('%s.%s' % (g, nm)), 1 if r.proto4() else 0), None)
+        self.ctx.count('link:reconnect-%s' % ('drained' if drained else 'outstanding'))
 
     def dev_line(self):
         ents = []
@@ -1489,6 +1557,13 @@ def correspond(ctx):
             if k % 4 == 1:
                 drain(sc)
                 reentrant_family(sc)
+            if k % 4 == 2 and not nr:
+                # the same object connected again, to a device with ANOTHER table; every value path runs on the later connections
+                for _ in range(2):
+                    run_ops(sc, 25)
+                    sc.reconnect(drained=ctx.rng.random() < 0.6)
+                    if ctx.rng.random() < 0.5:
+                        drain(sc)
             run_ops(sc, 150 if thorough else 80)
             if sc.real.proto4():
                 drain(sc)
@@ -1641,11 +1716,182 @@ def search(ctx):
     """the property itself (Python twin of Spec/C04 + the statement) evaluated on the real code's observable behaviour"""
     _search_sync(ctx)
     _search_notifications(ctx)
+    _search_reconnect(ctx)
     _search_duplicates(ctx)
     _search_sequential(ctx)
     _search_reentrant(ctx)
     _search_retry(ctx)
     search_threads(ctx)
+
+
+def other_firmware(rng, S, ps, v2=True, tag=1):
+    """another firmware build for the same product: the same parameters (by name) at OTHER indices (rotation: no index keeps its
+    parameter), about half of them with another type, sometimes one dropped and one new, possibly another protocol version"""
+    k = rng.randint(1, max(1, len(ps) - 1))
+    order = list(ps[k:]) + list(ps[:k])
+    if len(order) > 2 and rng.random() < 0.3:
+        order.pop(rng.randrange(len(order)))
+    out = []
+    for p in order:
+        ct = p.ctype if rng.random() < 0.5 else rng.choice(CTYPES)
+        out.append(S.ParamVar(p.group, p.name, ct, rand_value(rng, ct), readonly=p.readonly, persistent=True, extended=True,
+                              default=rand_value(rng, ct), stored=rand_value(rng, ct) if rng.random() < 0.4 else None))
+    if rng.random() < 0.3:
+        ct = rng.choice(CTYPES)
+        out.insert(rng.randrange(len(out) + 1), S.ParamVar('g0', 'new%d' % tag, ct, rand_value(rng, ct), persistent=True, extended=True,
+                                                           default=rand_value(rng, ct)))
+    return S.CrazyflieDevice(protocol_version=rng.choice([4, 5, 10]) if v2 else rng.choice([1, 3]), param_toc=out)
+
+
+def _session_check(ctx, r, rec, rng, nset=4):
+    """The property on ONE connection of r to r.dev, judged against the device alone (its table, its values, the wire): initial
+    fetch, write + answer, notification, read, default / persistent state - cache, get_value, the callbacks registered by name
+    (rec collects their calls) and the bytes on the wire.  -> list of problems (empty = property held)"""
+    import copy
+    S, dev, probs = r.S, r.dev, []
+    v2 = dev.v2
+    toc = [(p.group, p.name, p.ctype) for p in dev.param_toc]
+    byname = {'%s.%s' % (g, n): (i, ct) for i, (g, n, ct) in enumerate(toc)}
+
+    def devval(i):
+        p = dev.param_toc[i]
+        return _bits(p.ctype, _fw_decode(p.ctype, S._cast(FW_FMT[p.ctype], p.value)))
+
+    def dec(name, s):
+        if name not in byname:
+            return 'unknown parameter'
+        ct = byname[name][1]
+        try:
+            return _bits(ct, float(s) if ct in ('float', 'double') else int(s))
+        except Exception:
+            return 'not a %s: %r' % (ct, s)
+
+    def events():
+        out = sorted((k, nm, dec(nm, s)) for (k, nm, s) in rec)
+        del rec[:]
+        return out
+
+    def want(i):
+        g, n, _ = toc[i]
+        nm = '%s.%s' % (g, n)
+        return sorted([('all', nm, devval(i)), ('grp:' + g, nm, devval(i)), ('par:' + nm, nm, devval(i))])
+
+    def cache(where):
+        vals = r.param.values
+        seen = {'%s.%s' % (g, n): vals[g][n] for g in vals for n in vals[g]}
+        for nm in sorted(set(seen) | set(byname)):
+            if nm not in byname:
+                probs.append('%s: the cache holds %s = %r, a parameter this device does not have' % (where, nm, seen[nm]))
+            elif nm not in seen:
+                probs.append('%s: no cached value for %s' % (where, nm))
+            elif dec(nm, seen[nm]) != devval(byname[nm][0]):
+                probs.append('%s: cached %s = %r but the device (%s, index %d) has %r' % (where, nm, seen[nm], byname[nm][1], byname[nm][0],
+                                                                                      dev.param_toc[byname[nm][0]].value))
+        for nm in byname:
+            raised, v = _call(r, r.param.get_value, nm)
+            if raised or dec(nm, v) != devval(byname[nm][0]):
+                probs.append('%s: get_value(%s) -> %r but the device (%s, index %d) has %r' % (where, nm, v, byname[nm][1], byname[nm][0],
+                                                                                          dev.param_toc[byname[nm][0]].value))
+
+    def idb(i):
+        return struct.pack('<H', i) if v2 else bytes([i])
+    _pump(r)
+    r._flush()
+    if not r.param.is_updated:
+        probs.append('fetch: is_updated is False after every value was answered')
+    cache('fetch')
+    got, exp = events(), sorted(sum((want(i) for i in range(len(toc))), []))
+    if got != exp:
+        probs.append('fetch: callbacks got %r, expected %r' % ([e for e in got if e not in exp][:4], [e for e in exp if e not in got][:4]))
+    some = list(range(len(toc)))
+    rng.shuffle(some)
+    for i in some[:nset]:
+        g, n, ct = toc[i]
+        nm = '%s.%s' % (g, n)
+        if not dev.param_toc[i].readonly:
+            v = rand_value(rng, ct)
+            n0 = len(dev.requests)
+            raised, e = _call(r, r.param.set_value, nm, v)
+            _pump(r)
+            wire = [(c, d) for (p, c, d) in dev.requests[n0:] if p == 2]
+            if raised or wire != [(2, idb(i) + struct.pack(FW_FMT[ct], v))]:
+                probs.append('write: set_value(%s, %r) [%s, index %d] %s; wire %r' % (nm, v, ct, i, 'raised %r' % (e,) if raised else 'returned',
+                                                                                    [(c, d.hex()) for c, d in wire]))
+            got = events()
+            if not raised and got != want(i):
+                probs.append('write: after the answer to set_value(%s, %r) the callbacks got %r, expected %r' % (nm, v, got[:4], want(i)))
+            cache('write ' + nm)
+        if v2:
+            pkt = dev.set_param(i, rand_value(rng, ct))
+            r.inject(pkt[1], pkt[2])
+            r.deliver()
+            got = events()
+            if got != want(i):
+                probs.append('notification: value-updated for %s [%s, index %d]: callbacks got %r, expected %r' % (nm, ct, i, got[:4], want(i)))
+            cache('notification ' + nm)
+        _call(r, r.param.request_param_update, nm)
+        _pump(r)
+        got = events()
+        if got != want(i):
+            probs.append('read: request_param_update(%s) [%s, index %d]: callbacks got %r, expected %r' % (nm, ct, i, got[:4], want(i)))
+        if v2 and dev.param_toc[i].persistent:
+            for kind, fn in (('getdef', r.param.get_default_value), ('getstate', r.param.persistent_get_state)):
+                exp1 = _expected_misc(copy.deepcopy(dev), S, kind, i)[1]
+                out = []
+
+                def cb(name, val, _ct=ct, _out=out):
+                    if val is not None and hasattr(val, 'is_stored'):
+                        val = (val.is_stored, _bits(_ct, val.default_value), None if val.stored_value is None else _bits(_ct, val.stored_value))
+                    elif val is not None:
+                        val = _bits(_ct, val)
+                    _out.append((name, val))
+                _call(r, fn, nm, cb)
+                _pump(r)
+                if exp1 is not None and out != [(nm, exp1)]:
+                    probs.append('%s(%s) [%s, index %d]: callback got %r, expected %r' % (kind, nm, ct, i, out, [(nm, exp1)]))
+        ctx.count('search:session-check')
+    del rec[:]
+    r._flush()
+    return probs
+
+
+def _search_reconnect(ctx):
+    """ONE Crazyflie / Param object, several consecutive connections to devices with DIFFERENT parameter tables (other firmware:
+    indices rotated, types changed, parameters dropped / added, other protocol version).  Whatever the object retains between
+    connections (callbacks registered by name are meant to stay) must not leak: on every connection the property is judged
+    against that connection's device alone."""
+    from harness.sim import crazyflie_device as S
+    rng = ctx.rng
+    routing, _snap = source_variant()
+    for t in range(10 if ctx.tier == 'thorough' else 4):
+        v2 = t % 4 != 3
+        n = rng.randint(3, 6)
+        ps = []
+        for k in range(n):
+            ct = CTYPES[(t + 3 * k) % len(CTYPES)]
+            ps.append(S.ParamVar('g%d' % (k % 2), 'p%d' % k, ct, rand_value(rng, ct), readonly=(k == n - 1 and t % 2 == 1), persistent=True,
+                                 extended=True, default=rand_value(rng, ct)))
+        dev = S.CrazyflieDevice(protocol_version=rng.choice([4, 5, 10]) if v2 else rng.choice([1, 3]), param_toc=ps)
+        r = Real(dev, {}, routing, needs_resending=bool(t % 2))
+        rec = []
+        r.param.add_update_callback(cb=lambda nm, v: rec.append(('all', nm, v)))
+        for g in ('g0', 'g1'):
+            r.param.add_update_callback(group=g, cb=lambda nm, v, _g=g: rec.append(('grp:' + _g, nm, v)))
+        for p in ps + [S.ParamVar('g0', 'new1'), S.ParamVar('g0', 'new2')]:
+            r.param.add_update_callback(group=p.group, name=p.name, cb=lambda nm, v, _k='%s.%s' % (p.group, p.name): rec.append(('par:' + _k, nm, v)))
+        tables = []
+        for session in range(3):
+            tables.append({'protocol': r.dev.protocol_version, 'params': [(p.group, p.name, p.ctype) for p in r.dev.param_toc]})
+            probs = _session_check(ctx, r, rec, rng)
+            ctx.count('search:reconnect-session-%d' % session)
+            if probs:
+                ctx.witness('reconnect-other-table' if session else 'session-values',
+                            'connection number %d of the same Crazyflie object (the device of each connection has its own parameter table): '
+                            'values / callbacks / wire bytes do not match this connection\'s device' % (session + 1),
+                            {'tables_of_the_connections': tables, 'needs_resending': bool(t % 2)}, problems=probs[:8])
+                break
+            if session < 2:
+                r.reconnect(other_firmware(rng, S, r.dev.param_toc, v2=v2 if session == 0 else rng.random() < 0.7, tag=session + 1))
 
 
 def _search_notifications(ctx):
